@@ -476,7 +476,12 @@ def addRequest (d : BDir) (anc : List Up) (c : Cat) : R Cat :=
       let b : BodyM := { format := formatOf nt, nota := nt }
       let c ← if d.kind == .Request then do
           let i ← liftAt d (httpIdOf (d :: anc.map (·.d)))
-          pure (c.updInter i fun x => if x.request.isNone then { x with request := some { id := d.id } } else x)
+          match c.getInter i with
+          | some x =>
+            -- `Catalog.AddRequest`: a second Request directive of one method is not unique (F40)
+            if x.request.isSome then fail d .notUnique
+            else pure (c.updInter i fun x => { x with request := some { id := d.id } })
+          | none => pure c
         else pure c
       if nt == nJsight && !typ.isEmpty && d.body.isNone then addRequestBody d anc b c
       else if nt == nJsight && typ.isEmpty && d.body.isSome then addRequestBody d anc b c
